@@ -90,7 +90,11 @@ PROPS["C03"] = dict(
 # symbolic execution, so every io::Error drop site also explores "custom boxed error", whose
 # candidates include anyhow's error objects with their Backtrace); a bound of 1 keeps them
 # small, and their unwinding assertions are still proved by the solver.
-BT_LOOPS = [(r"drop_glue::<\[std::backtrace::Backtrace(Symbol|Frame)\]>", 0, 1)]
+BT_LOOPS = [(r"drop_glue::<\[std::backtrace::Backtrace(Symbol|Frame)\]>", 0, 1),
+            # "custom boxed error" candidates of an io::Error drop include io::Error itself: without a bound the
+            # phantom drop recurses to the harness bound at every drop site
+            (r"^std::ptr::drop_glue::<std::io::Error>$", None, 2),
+            (r"^<core::io::error::repr::Repr as std::ops::Drop>::drop$", None, 2)]
 
 _c07_common = dict(timeout=900, mem_gb=8, unwindset=BT_LOOPS)
 PROPS["C07"] = dict(
@@ -223,7 +227,7 @@ PROPS["C02"] = dict(
         H("c01_tree::max_3chain", tier="thorough", instance="root + a + a::b + a::b::c", symbolic="all levels", bound="unwind 8, recursion 4", unwindset=TREE_REC(3), timeout=3600, mem_gb=14),
         # enabled() on the routing instances
         H("c01_tree::tree_a", instance="enabled() on declared: a; " + _T_SMALL, symbolic=_tree_sym, bound="unwind 9", unwindset=TREE_REC(1), **_tree),
-        H("c01_tree::tree_a_ab", instance="enabled() on declared: a, a::b", symbolic=_tree_sym, bound="unwind 9", unwindset=TREE_REC(2), **_tree),
+        H("c01_tree::tree_a_ab", tier="thorough", instance="enabled() on declared: a, a::b", symbolic=_tree_sym, bound="unwind 9", unwindset=TREE_REC(2), **_tree),
         H("c01_tree::tree_sib", tier="thorough", instance="enabled() on declared: a::b, a::bc", symbolic=_tree_sym, bound="unwind 9", unwindset=TREE_REC(2), **_tree),
         H("c01_tree::tree_3chain", tier="thorough", instance="enabled() on declared: a, a::b, a::b::c", symbolic=_tree_sym, bound="unwind 11", unwindset=TREE_REC(3), timeout=3600, mem_gb=14),
     ],
@@ -243,6 +247,9 @@ PROPS["C13"] = dict(
         H("c13_names::names_len5", timeout=900, mem_gb=8, instance="<= 5 bytes over {a,:}", symbolic="length and every byte", bound="unwind 9"),
         H("c13_names::names_len5_witness", kind="witness", timeout=900, mem_gb=8),
         H("c13_names::names_len4_multibyte", timeout=900, mem_gb=8, instance="<= 4 units over {a,:,é}", symbolic="length and every unit", bound="unwind 10"),
+        H("c13_names::names_colons_plus3", timeout=900, mem_gb=8, instance="'::' + <= 3 bytes over {a,:}", symbolic="length and every free byte", bound="unwind 10"),
+        H("c13_names::names_a_colons_plus3", timeout=900, mem_gb=8, instance="'a::' + <= 3 bytes over {a,:}", symbolic="length and every free byte", bound="unwind 10"),
+        H("c13_names::names_ab_colons_plus3", tier="thorough", timeout=1800, mem_gb=8, instance="'ab:' + <= 3 bytes over {a,:}", symbolic="length and every free byte", bound="unwind 10"),
         H("c13_names::names_len7", tier="thorough", timeout=3600, mem_gb=12, instance="<= 7 bytes over {a,:}", symbolic="length and every byte", bound="unwind 10"),
     ],
 )
@@ -356,13 +363,15 @@ PROPS["C20"] = dict(
 # ------------------------------------------------------------------------------------------
 # appenders over the model disk
 HARNESS_LOOPS = [(r"^(c04_file|c05_rolling|c08_faults|world::fs|wfile)::", "*", 26),
-                 (r"^<std::fs::File as std::io::Write>::write$", "*", 26), (r"^std::fs::OpenOptions::open", "*", 26),
+                 (r"^<std::fs::File as std::io::Write>::write$", "*", 14), (r"^<std::io::BufWriter<.*> as std::io::Write>::write", "*", 26),
+                 (r"BufWriter::<.*>::flush_buf$", "*", 2), (r"^std::fs::OpenOptions::open", "*", 26),
                  (r"^std::fs::(rename|copy|remove_file|create_dir_all)", "*", 26)]
 _fs_assumptions = [
     "E4 model file system and file handles (harness/src/world.rs, wfile.rs) replace OpenOptions::{append,truncate,open}, "
     "File::metadata, Metadata::len, <File as Write>::{write,flush}, the closing of descriptors, fs::{rename,create_dir_all}: a handle "
     "refers to an inode, so a writer that survives a rename keeps writing into the renamed file; writes are complete (no short writes)",
-    "E3: parking_lot::Mutex is replaced by a std Mutex wrapper (mutual exclusion trusted); std's BufWriter runs for real",
+    "E3: parking_lot::Mutex is replaced by a std Mutex wrapper (mutual exclusion trusted)",
+    "E10: std::io::BufWriter<File>::{write, write_all, flush} are replaced by a model: written bytes are held back and reach the file, in order, exactly at flush (the real BufWriter did not fit: 20 min of symbolic execution and 9 GB for one append); one BufWriter alive at a time",
     "E9: the fallback PatternEncoder named by the builders is cut (harnesses install their own encoder); Backtrace::capture -> "
     "disabled; <anyhow::Error as Drop>::drop -> no-op; fault-free harnesses cut <anyhow::Error as From<io::Error>>::from",
     "harness loops over the 24-byte model files get a per-loop bound of 26 (--unwindset), everything else the harness bound of 6",
@@ -434,7 +443,7 @@ PROPS["C06"] = dict(
     harnesses=[
         H("c06_triggers::size_trigger", instance="SizeTrigger unit", symbolic="limit, size: all of u64", bound="unwind 4", timeout=600, mem_gb=6),
         H("c06_triggers::size_trigger_witness", kind="witness", timeout=600, mem_gb=6),
-        H("c05_rolling::roll_size_2", instance="appender + real SizeTrigger, 2 appends", symbolic="limit 0..6, pre-existing 0..2, open mode, record lengths", bound="unwind 10", **_a),
+        H("c05_rolling::roll_size_2", tier="thorough", instance="appender + real SizeTrigger, 2 appends", symbolic="limit 0..6, pre-existing 0..2, open mode, record lengths", bound="unwind 10", **_a),
         H("c05_rolling::roll_size_3_restart", tier="thorough", instance="appender + real SizeTrigger, 3 appends, optional restart", symbolic="as above", bound="unwind 10", timeout=3600, mem_gb=14, unwindset=HARNESS_LOOPS + BT_LOOPS),
     ],
 )
@@ -452,7 +461,7 @@ PROPS["C17"] = dict(
     harnesses=[
         H("c06_triggers::onstartup_trigger", instance="OnStartUpTrigger unit, 3 calls", symbolic="min_size, three sizes: all of u64", bound="unwind 4", timeout=600, mem_gb=6),
         H("c06_triggers::onstartup_trigger_witness", kind="witness", timeout=600, mem_gb=6),
-        H("c05_rolling::roll_startup_2", instance="appender + real OnStartUpTrigger, 2 appends", symbolic="min_size 0..3, pre-existing 0..2, record lengths", bound="unwind 10", **_a),
+        H("c05_rolling::roll_startup_2", tier="thorough", instance="appender + real OnStartUpTrigger, 2 appends", symbolic="min_size 0..3, pre-existing 0..2, record lengths", bound="unwind 10", **_a),
     ],
 )
 
@@ -515,8 +524,10 @@ PROPS["C11"] = dict(
         H("c11_safe::width_20_digits_witness", kind="witness", **_p),
         H("c11_safe::maxwidth_22_digits", instance="{m:.999999999999999999999<d>}", symbolic="last digit", bound="unwind 28", **_p),
         H("c11_safe::width_small_encode", instance="ab{m:><d>.3}, encoded", symbolic="the width digit", bound="unwind 12", **_p),
+        H("c11_safe::date_bad_directive", tier="thorough", instance="ab{d(%Q)}, encoded (class of the fixed finding)", symbolic="-", bound="unwind 12", timeout=3600, mem_gb=14, unwindset=WRITE_REC + SINK_LOOPS),
         H("c11_safe::unknown_formatter", instance="ab{x}cd, encoded", symbolic="-", bound="unwind 12", **_p),
         H("c11_safe::unclosed", instance="ab{m, encoded", symbolic="-", bound="unwind 12", **_p),
+        H("c11_safe::width_20_digits_encode", tier="thorough", instance="ab{m:18446744073709551619}, encoded: ERROR marker after the prefix", symbolic="-", bound="unwind 28", timeout=3600, mem_gb=14, unwindset=WRITE_REC + SINK_LOOPS),
         H("c11_safe::one_free_syntax_char", tier="thorough", instance="a<c>m}b, encoded", symbolic="c over 12 syntax characters", bound="unwind 12", timeout=3600, mem_gb=14),
     ],
 )
@@ -630,7 +641,7 @@ PROPS["C18"]["harnesses"] += [
 
 _f = dict(timeout=1800, mem_gb=12, unwindset=HARNESS_LOOPS + BT_LOOPS)
 PROPS["C08"] = dict(
-    functions=["<FixedWindowRoller as Roll>::roll", "fixed_window::rotate", "fixed_window::move_file",
+    functions=["fixed_window::rotate (door-opener FixedWindowRoller::verif_rotate: what roll() runs, before the anyhow conversion)", "fixed_window::move_file",
                "<RollingFileAppender as Append>::append", "RollingFileAppender::get_writer", "LogFile::roll"],
     bounds="roller level: count 2 and 3, base 0, every initial window state, EVERY file-system step of the rotation as the step "
            "that fails and (independently) as the point of process death (crash image taken at the guarded callback before the step), "
@@ -650,8 +661,10 @@ PROPS["C08"] = dict(
     level_note="Trusted: Kani/CBMC/CaDiCaL, E3/E4. A step is made to fail before it has any effect (rename is atomic).",
     design_ref="DESIGN.md section 5, C08",
     harnesses=[
-        H("c08_faults::fault_roller_c2", instance="roller, count 2", symbolic="window state, failing step 0..1 or none, crash point 0..1", bound="unwind 8", **_f),
-        H("c08_faults::fault_roller_c2_witness", kind="witness", **_f),
+        H("c08_faults::fault_roller_c1", instance="roller, count 1 (one step: the final move)", symbolic="window state, failing step or none, crash point", bound="unwind 8", **_f),
+        H("c08_faults::fault_roller_c1_witness", kind="witness", **_f),
+        H("c08_faults::fault_roller_c2", tier="thorough", instance="roller, count 2", symbolic="window state, failing step 0..1 or none, crash point 0..1", bound="unwind 8", timeout=3600, mem_gb=14, unwindset=HARNESS_LOOPS + BT_LOOPS),
+        H("c08_faults::fault_roller_c2_witness", tier="thorough", kind="witness", timeout=3600, mem_gb=14, unwindset=HARNESS_LOOPS + BT_LOOPS),
         H("c08_faults::fault_roller_c3", tier="thorough", instance="roller, count 3", symbolic="window state, failing step 0..2 or none, crash point 0..2", bound="unwind 8", timeout=3600, mem_gb=14, unwindset=HARNESS_LOOPS + BT_LOOPS),
         H("c08_faults::fault_appender_post", instance="appender, post-processing policy, append mode", symbolic="record lengths", bound="unwind 10", **_f),
         H("c08_faults::fault_appender_post_witness", kind="witness", **_f),
